@@ -9,9 +9,10 @@
    No bound on the number of entries, alternatives, terms or on any length: the proofs are
    inductions over the abstract field.
 
-   The reader is the model of the code WITH the proposed fix
-   proposed_fixes/C10-epoch-and-space-in-version.patch; for the code as it is, see
-   C10_prefix_epoch_refuted / C10_prefix_space_refuted below. *)
+   The reader is the model of the code as of /repo 541b0f5, i.e. with the three fixes this
+   property led to: 0eb8794 (epoch in a version), 43dd02f (whitespace before ")"), 541b0f5
+   (architectures() keeps the "!").  For the code before them see C10_prefix_epoch_refuted,
+   C10_prefix_space_refuted and C10_prefix_arch_negation_refuted below. *)
 From V.model Require Import Base RelLex RelParse RelAcc RelGrammar.
 From V.model Require RelParsePre.
 From V.proofs Require Import RelGrammarLexP RelGrammarParseP RelGrammarAccP.
@@ -31,17 +32,17 @@ Check C10_parse_tokens : forall allow (f : rfield), wf_rfield allow f = true ->
 Print Assumptions C10_parse_tokens.
 
 (* 3. the reader: no error, text back, and the accessors (entries / relations / name / archqual /
-   version / architectures / profiles / substvars) report exactly what was written -- except that
-   architectures() cannot express "!" (rcontent_drop_neg; see 5 and 6) *)
+   version / architectures / profiles / substvars) report exactly what was written, in the
+   accessors' own types (rcontent_acc: a negated architecture is the String "!name") *)
 Theorem C10_lossless : forall allow (f : rfield), wf_rfield allow f = true ->
   parse_relaxed (rrender f) allow = Ok (rtree_of f, 0) /\
   text (rtree_of f) = rrender f /\
-  racc (rtree_of f) = Ok (rcontent_drop_neg f).
+  racc (rtree_of f) = Ok (rcontent_acc f).
 Proof. intros allow f H. destruct (C10_lossless_all allow f H) as (_ & _ & A & B & C). auto. Qed.
 Check C10_lossless : forall allow (f : rfield), wf_rfield allow f = true ->
   parse_relaxed (rrender f) allow = Ok (rtree_of f, 0) /\
   text (rtree_of f) = rrender f /\
-  racc (rtree_of f) = Ok (rcontent_drop_neg f).
+  racc (rtree_of f) = Ok (rcontent_acc f).
 Print Assumptions C10_lossless.
 
 (* 4. the strict reader, Relations::from_str (no substitution variables) *)
@@ -52,60 +53,56 @@ Check C10_from_str : forall f : rfield, wf_rfield false f = true ->
   relations_from_str (rrender f) = Ok (rtree_of f).
 Print Assumptions C10_from_str.
 
-(* The full statement of the lossless clause: the accessors' result, read as content
-   (an architecture the accessor returns counts as not negated), IS the content. *)
-Definition C10_full : Prop :=
-  forall allow (f : rfield), wf_rfield allow f = true ->
-  exists a, parse_relaxed (rrender f) allow = Ok (rtree_of f, 0) /\
-            racc (rtree_of f) = Ok a /\ racc_view a = rcontent f.
-
-(* finding class arch-negation-dropped: the field contains a negated architecture *)
-Definition Known_arch_negation_dropped (f : rfield) : Prop := has_neg_arch f = true.
-
-(* 5. outside that class the full statement holds *)
+(* 5. The full statement of the lossless clause, for EVERY well-formed field: the accessors'
+   result, read back as content (racc_view: a returned architecture "!x" is the negated x), IS the
+   content -- entries, alternatives, names, qualifiers, operators, versions with epoch,
+   architecture lists with their negations, profile groups, substitution variables. *)
 Theorem C10_content : forall allow (f : rfield), wf_rfield allow f = true ->
-  ~ Known_arch_negation_dropped f ->
   exists a, parse_relaxed (rrender f) allow = Ok (rtree_of f, 0) /\
             racc (rtree_of f) = Ok a /\ racc_view a = rcontent f.
 Proof.
-  intros allow f H Hn. destruct (C10_lossless_all allow f H) as (_ & _ & A & _ & C).
-  exists (rcontent_drop_neg f). split; [exact A|]. split; [exact C|].
-  apply racc_view_noneg. unfold Known_arch_negation_dropped in Hn. destruct (has_neg_arch f); congruence.
+  intros allow f H. destruct (C10_lossless_all allow f H) as (_ & _ & A & _ & C).
+  exists (rcontent_acc f). split; [exact A|]. split; [exact C|]. apply (racc_view_content allow), H.
 Qed.
 Check C10_content : forall allow (f : rfield), wf_rfield allow f = true ->
-  ~ Known_arch_negation_dropped f ->
   exists a, parse_relaxed (rrender f) allow = Ok (rtree_of f, 0) /\
             racc (rtree_of f) = Ok a /\ racc_view a = rcontent f.
 Print Assumptions C10_content.
 
-(* 6. the class is necessary: "a [!b]" is well-formed, and architectures() yields ["b"] *)
+Definition C10_full : Prop :=
+  forall allow (f : rfield), wf_rfield allow f = true ->
+  exists a, parse_relaxed (rrender f) allow = Ok (rtree_of f, 0) /\
+            racc (rtree_of f) = Ok a /\ racc_view a = rcontent f.
+Theorem C10_full_holds : C10_full.
+Proof. exact C10_content. Qed.
+Check C10_full_holds : C10_full.
+Print Assumptions C10_full_holds.
+
+(* 6. Before /repo 541b0f5 architectures() returned the IDENT tokens only
+   (RelParsePre.relation_architectures_pre): for "a [!b]" it yields ["b"], today ["!b"]. *)
 Definition C10_neg_witness : rfield :=
   mk_rfield [] (IEntry (mk_rel [97%N] None None (Some (mk_group [32%N] [mk_term [] true [98%N]] [])) [] []) []) [].
-Theorem C10_arch_negation_witness :
-  wf_rfield false C10_neg_witness = true /\ Known_arch_negation_dropped C10_neg_witness /\
+Theorem C10_prefix_arch_negation_refuted :
+  wf_rfield false C10_neg_witness = true /\ has_neg_arch C10_neg_witness = true /\
   rrender C10_neg_witness = [97; 32; 91; 33; 98; 93]%N /\
-  exists a, racc (rtree_of C10_neg_witness) = Ok a /\ racc_view a <> rcontent C10_neg_witness.
-Proof.
-  split; [reflexivity|]. split; [reflexivity|]. split; [reflexivity|].
-  eexists. split; [vm_compute; reflexivity|]. vm_compute. discriminate.
-Qed.
-Check C10_arch_negation_witness :
-  wf_rfield false C10_neg_witness = true /\ Known_arch_negation_dropped C10_neg_witness /\
+  map (map RelParsePre.relation_architectures_pre) (map entry_relations (relations_entries (rtree_of C10_neg_witness)))
+    = [[Some [[98%N]]]] /\
+  map (map relation_architectures) (map entry_relations (relations_entries (rtree_of C10_neg_witness)))
+    = [[Some [[33; 98]%N]]] /\
+  map (map x_archs) (fst (rcontent C10_neg_witness)) = [[Some [(true, [98%N])]]].
+Proof. vm_compute. repeat split. Qed.
+Check C10_prefix_arch_negation_refuted :
+  wf_rfield false C10_neg_witness = true /\ has_neg_arch C10_neg_witness = true /\
   rrender C10_neg_witness = [97; 32; 91; 33; 98; 93]%N /\
-  exists a, racc (rtree_of C10_neg_witness) = Ok a /\ racc_view a <> rcontent C10_neg_witness.
-Print Assumptions C10_arch_negation_witness.
+  map (map RelParsePre.relation_architectures_pre) (map entry_relations (relations_entries (rtree_of C10_neg_witness)))
+    = [[Some [[98%N]]]] /\
+  map (map relation_architectures) (map entry_relations (relations_entries (rtree_of C10_neg_witness)))
+    = [[Some [[33; 98]%N]]] /\
+  map (map x_archs) (fst (rcontent C10_neg_witness)) = [[Some [(true, [98%N])]]].
+Print Assumptions C10_prefix_arch_negation_refuted.
 
-Theorem C10_full_refuted : ~ C10_full.
-Proof.
-  intros H. destruct (H false C10_neg_witness eq_refl) as (a & _ & Ha & Hv).
-  destruct C10_arch_negation_witness as (_ & _ & _ & a' & Ha' & Hv').
-  rewrite Ha in Ha'. injection Ha' as <-. exact (Hv' Hv).
-Qed.
-Check C10_full_refuted : ~ C10_full.
-Print Assumptions C10_full_refuted.
-
-(* 7. The code as it is in /repo before the proposed fix (model/RelParsePre.v) violates the
-   property on versions with an epoch and on whitespace before ")": three errors each. *)
+(* 7. The code before /repo 0eb8794 / 43dd02f (model/RelParsePre.v) violated the property on
+   versions with an epoch and on whitespace before ")": three errors each. *)
 Definition C10_epoch_witness : rfield :=       (* "a (>= 1:2.0)" *)
   mk_rfield [] (IEntry (mk_rel [97%N] None (Some (mk_vclause [32%N] [] VGe [32%N] (Some [49%N]) [50; 46; 48]%N [])) None [] []) []) [].
 Definition C10_space_witness : rfield :=       (* "a (>= 1 )" *)
@@ -163,7 +160,7 @@ Definition C10_ex : rfield :=
   mk_rfield sp (IEntry r1 [(sp, r2); (nl, r3)])
     [(nl, ISubst [109; 105; 115; 99]%N [[68; 101; 112; 101; 110; 100; 115]%N] sp); ([], IEmpty); (sp, IEntry r2 []); ([], IEmpty)].
 Example C10_ex_wf :
-  wf_rfield true C10_ex = true /\ has_neg_arch C10_ex = false /\
+  wf_rfield true C10_ex = true /\
   rrender C10_ex =
     [32; 108; 105; 98; 99; 54; 58; 97; 110; 121; 32; 40; 62; 61; 32; 49; 58; 50; 46; 48; 126; 114; 99; 49; 45; 49; 41;
      32; 91; 97; 109; 100; 54; 52; 32; 105; 51; 56; 54; 93; 32; 60; 33; 110; 111; 99; 104; 101; 99; 107; 62; 32; 60; 32;
